@@ -169,8 +169,11 @@ def find_days_to_exclude(
   """
   def parse_day(day):
     # Only the documented format: a general date parser silently reads, e.g.,
-    # '2020/01' as 2020/01/01 and '20/01/01' as 2001/01/20.
-    return pd.to_datetime(day.strip(), format='%Y/%m/%d')
+    # '2020/01' as 2020/01/01, '20/01/01' as 2001/01/20 and 'today' as now.
+    day = day.strip()
+    if not re.fullmatch('[0-9]{4}/[0-9]{2}/[0-9]{2}', day):
+      raise ValueError(f'{day} is not in the format YYYY/MM/DD.')
+    return pd.to_datetime(day, format='%Y/%m/%d')
 
   days_exclude = []
   for x in dates_to_exclude:
